@@ -21,6 +21,7 @@ CORRESPONDENCE = [
     "dec_generic/decompress_usingDict model == LZ4_decompress_safe(_usingDict) on valid blocks (return value, whole destination image), fast loop off",
     "DecStream.decompress_safe_continue model == LZ4_decompress_safe_continue (return value, destination image, the four LZ4_streamDecode_t fields) in every documented geometry",
     "DecInplace model (LZ4_decompress_safe with source and destination in ONE memory, input loads from the current contents) == LZ4_decompress_safe run in place at the end of a buffer of n + LZ4_DECOMPRESS_INPLACE_MARGIN(n) bytes (return value, the whole buffer afterwards), both fast-loop builds, capacity n and whole buffer; and at margin base 32 on the F16 witness (both fail alike)",
+    "DecRingWrap model (the wrap call of a decoding ring buffer: external dictionary and destination in ONE memory, dictionary loads from the current contents) == LZ4_decompress_safe_continue at the wrap of a ring of LZ4_decoderRingBufferSize(maxBlock) bytes (return value, whole ring afterwards), both fast-loop builds",
     "DecFast model (LZ4_decompress_unsafe_generic) == LZ4_decompress_fast / _fast_usingDict on valid blocks (return value, destination image, no out-of-buffer access) and == LZ4_decompress_fast_continue (return value, image, LZ4_streamDecode_t fields) in every geometry"]
 RULE = ("valid blocks generated from sequences by an independent encoder (profiles: generic, short offsets 1..8 x lengths near the buffer end, "
         "zero-literal sequences (also after 64 KB of output), 255-chains for literal and match lengths, matches straddling dictionary and output, "
@@ -57,6 +58,8 @@ def gen_cases(tier, seed):
         cases.append({"kind": "edge64k", "bseed": rng.randrange(1 << 48)})
     for i in range({"quick": 6, "search": 12, "thorough": 40}[tier]):
         cases.append({"kind": "inplace", "bseed": rng.randrange(1 << 48), "count": 150})
+    for i in range({"quick": 3, "search": 6, "thorough": 16}[tier]):
+        cases.append({"kind": "ringmin", "bseed": rng.randrange(1 << 48), "count": 4})
     cases.append({"kind": "f5", "bseed": 0})
     rng.shuffle(cases)
     # regression corpus of finding F14 (fixed in /repo): the 16 one-byte empty blocks x capacity 0; runs first
